@@ -4,7 +4,7 @@ import vlib
 from gen import jsongen as G
 from props import srvmsg_common as S
 
-TRANSLATORS = ["error_codes", "sniff"]
+TRANSLATORS = ["error_codes", "sniff", "error_consts", "batch_gate"]   # Model/Server.v: generated constants, interpreted batch gate
 MODELS = ["server"]
 BINS = {"release": ["srvmsg"]}
 RULE = ("cases = (transport, message bytes) delivered as ONE message to a real jsonrpsee server -- HTTP socket-free through "
